@@ -1,4 +1,5 @@
 """Machinery to read/write Tables in an Excel workbook using openpyxl as engine."""
+import io
 from itertools import chain
 from os import PathLike
 from typing import Union, Iterable, Sequence, Any, Dict, List, Tuple, Optional
@@ -61,7 +62,14 @@ def write_excel_openpyxl(tables, path, na_rep, styles, sep_lines, engine_kwargs)
             styles = DEFAULT_STYLE_SPEC if styles is True else styles
             _style_tables_in_worksheet(ws, table_dimensions, styles, sep_lines)
 
-    wb.save(path)
+    if isinstance(path, (str, PathLike)):
+        # Serialise first: when a table cannot be written, no file is created or left open
+        buffer = io.BytesIO()
+        wb.save(buffer)
+        with open(path, "wb") as f:
+            f.write(buffer.getvalue())
+    else:
+        wb.save(path)
 
 
 def _append_table_to_openpyxl_worksheet(
